@@ -9,6 +9,24 @@ sys.path.insert(0, HERE)
 os.environ.setdefault("PYTHONDONTWRITEBYTECODE", "1")
 
 
+def _split(text):
+    """comma separated harness names; commas inside [...] belong to the name"""
+    out, cur, depth = [], "", 0
+    for ch in text:
+        if ch == "[":
+            depth += 1
+        elif ch == "]":
+            depth -= 1
+        if ch == "," and depth == 0:
+            out.append(cur)
+            cur = ""
+        else:
+            cur += ch
+    if cur:
+        out.append(cur)
+    return out
+
+
 def main():
     ap = argparse.ArgumentParser()
     ap.add_argument("pid")
@@ -23,9 +41,9 @@ def main():
     modname = f"harness.{a.pid}"
     mod = importlib.import_module(modname)
     if hasattr(mod, "main"):
-        sys.exit(mod.main(a.tier, seed, a.only.split(",") if a.only else None))
+        sys.exit(mod.main(a.tier, seed, _split(a.only) if a.only else None))
     rc = common.run_property(a.pid, modname, a.tier, seed, getattr(mod, "LEVEL_NOTE", ""),
-                             mod.ASSUMPTIONS, mod.BOUNDS, only=a.only.split(",") if a.only else None)
+                             mod.ASSUMPTIONS, mod.BOUNDS, only=_split(a.only) if a.only else None)
     sys.exit(rc)
 
 
